@@ -26,7 +26,14 @@ RULE = ("tree: random operator trees (depth <= 4) over + - * / ** (exponents -3.
         "(number of numerator terms x number of denominator terms) shape around the len >= 2 test of __pow__. lin: "
         "linearize on filters whose numerator / denominator powers are quarter-integers in [-2, 5] (floats, exact), "
         "with and without a fractional constructor shift; non-trivial = a fractional power present and a filter "
-        "returned. Distinct = distinct case hash.")
+        "returned. hist: histories on live objects - (operands) 2-3 filter objects, 2-4 operator steps built on "
+        "those SAME objects and on earlier results (f ** -n, /, +, -, *, f(g), scalars), after every step the result "
+        "and every operand are observed again (stored items, output, == against the same filter built afresh): "
+        "operators must not change their operands; (lists) nested CascadeFilter / ParallelFilter objects edited in "
+        "place (setitem, append, pop, pop+append, insert, del, also inside a nested member) between reads of "
+        "numpoly / denpoly / output, and read through every input kind (list, tuple, generator, iterator, Stream, "
+        "the Stream another filter returned, thub, deque, range); the other families draw the input kind at random "
+        "too. Distinct = distinct case hash.")
 EXHAUSTIVE = {"quick": False, "thorough": False}
 trusted_base = [
   "coefficients are exact rationals (ExactQ, the int 1 the library itself stores); powers are Python ints; "
@@ -224,17 +231,21 @@ def mkx(xs):
   (the observation is then the response to the j-th basis vector: the coefficient of xj)."""
   if xs[0] == "q":
     return [Q(v) for v in xs[1]]
+  if xs[0] == "range":
+    return [ExactQ(i) for i in range(xs[1])]
   return [LinForm.var("x%d" % i) for i in range(xs[1])]
 
 
 def x_fracs(xs):
   if xs[0] == "q":
     return xs[1]
+  if xs[0] == "range":
+    return [fr(i) for i in range(xs[1])]
   return [fr(1 if i == xs[2] else 0) for i in range(xs[1])]
 
 
 def out_fracs(xs, ys):
-  if xs[0] == "q":
+  if xs[0] in ("q", "range"):
     return [fr(to_frac(y)) for y in ys]
   res = []
   for y in ys:
@@ -247,8 +258,29 @@ def out_fracs(xs, ys):
   return res
 
 
-def apply_filter(f, x, zero):
-  """list(f(x)) with the default zero (0.0), the int 0 or an exact 0"""
+IN_KINDS = ["list", "tuple", "gen", "iter", "stream", "thub", "deque", "range", "stream_out"]
+
+
+def as_kind(vals, kind):
+  """The same samples carried by another kind of iterable"""
+  from collections import deque
+  import audiolazy
+  vals = list(vals)
+  if kind == "tuple": return tuple(vals)
+  if kind == "gen": return (v for v in vals)
+  if kind == "iter": return iter(vals)
+  if kind == "stream": return audiolazy.Stream(vals)
+  if kind == "stream_out": return audiolazy.ZFilter([1])(vals, zero=0)     # the Stream another filter returned
+  if kind == "thub": return audiolazy.thub(vals, 1)
+  if kind == "deque": return deque(vals)
+  if kind == "range" and all(isinstance(v, ExactQ) and v.frac == i for i, v in enumerate(vals)):
+    return range(len(vals))
+  return vals
+
+
+def apply_filter(f, x, zero, kind="list"):
+  """list(f(x)) with the default zero (0.0), the int 0 or an exact 0; x given as the requested kind of iterable"""
+  x = as_kind(x, kind)
   if zero == "default":
     return list(f(x))
   return list(f(x, zero=(0 if zero == "int" else ExactQ(0))))
@@ -260,7 +292,7 @@ def run_tree(c):
     return {"filt": r, "out": r}
   f = r[1]
   return {"filt": ["ok", filt_of(f)],
-          "out": safe(lambda: out_fracs(c["x"], apply_filter(f, mkx(c["x"]), c.get("zero", "default"))))}
+          "out": safe(lambda: out_fracs(c["x"], apply_filter(f, mkx(c["x"]), c.get("zero", "default"), c.get("kind", "list"))))}
 
 
 def comp_tree(kind, a, b, cc, n):
@@ -271,7 +303,7 @@ def comp_tree(kind, a, b, cc, n):
 
 def run_sys(c):
   xs, zero = c["x"], c.get("zero", "default")
-  ap = lambda f, x: apply_filter(f, x, zero)
+  ap = lambda f, x: apply_filter(f, x, zero, c.get("inkind", "list"))
   fin = lambda fn: safe(lambda: out_fracs(xs, fn()))
   a_ = safe(lambda: build(c["a"])); b_ = safe(lambda: build(c["b"]))
   comp = safe(lambda: build(comp_tree(c["kind"], c["a"], c["b"], c["c"], c["n"])))
@@ -319,7 +351,7 @@ def run_flist(c):
   lst = cls(*fs) if c.get("star", True) else cls(fs)
   kw = {} if zero == "default" else {"zero": (0 if zero == "int" else ExactQ(0))}
   fin = lambda fn: safe(lambda: out_fracs(xs, fn()))
-  o = {"out": fin(lambda: list(lst(mkx(xs), **kw))),
+  o = {"out": fin(lambda: list(lst(as_kind(mkx(xs), c.get("kind", "list")), **kw))),
        "num": safe(lambda: terms_of(lst.numpoly)), "den": safe(lambda: terms_of(lst.denpoly))}
   parts = []
   if c["par"]:
@@ -426,12 +458,16 @@ def rand_inputs(rng, sym_p=0.25):
   return [["q", [fr(rng.choice(XVALS)) for _ in range(rng.choice([0, 1, 2, 3, 4, 4, 5, 5, 6, 7]))]]]
 
 
+def rand_kind(rng):
+  return rng.choice(IN_KINDS[:7] + ["stream", "stream_out", "list"])
+
+
 def rand_zero(rng):
   return rng.choice(["default", "default", "int", "q"])
 
 
 def xtag(x):
-  return "x=sym" if x[0] == "sym" else "x=len%d" % len(x[1])
+  return "x=sym" if x[0] == "sym" else "x=range" if x[0] == "range" else "x=len%d" % len(x[1])
 
 
 ONE = [1, 1]
@@ -474,7 +510,7 @@ def gen_tree(tier, rng):
       for n in (-3, -2, -1, 0, 1, 2):
         for x in rand_inputs(rng, 0.5)[:2]:
           yield {"e": ["pow", leaf, n], "x": x, "zero": "default", "tags": ["powshape", "%dx%d" % (na, nb), "n=%d" % n, xtag(x)]}
-  n = 550 if tier == "quick" else 7000
+  n = 400 if tier == "quick" else 7000
   for i in range(n):
     depth = rng.choice([1, 1, 2, 2, 2, 3, 3, 4])
     causal = rng.random() < 0.45                      # all-causal trees exercise the signal side
@@ -482,7 +518,7 @@ def gen_tree(tier, rng):
     e = bounded_expr(rng, depth, causal, pool, maxord=(3 if depth <= 3 else 2))
     zero = rand_zero(rng)
     for x in rand_inputs(rng):
-      yield {"e": e, "x": x, "zero": zero,
+      yield {"e": e, "x": x, "zero": zero, "kind": rand_kind(rng),
              "tags": ["random", "depth=%d" % depth, "top=" + e[0], xtag(x), "causal" if causal else "any"]}
 
 
@@ -501,7 +537,7 @@ def gen_sys(tier, rng):
       for x in (X4, IMP, ["sym", 3, 1]):
         yield {"kind": kind, "a": a, "b": b, "c": [-2, 3], "n": n, "x": x, "zero": "default",
                "tags": ["edge", kind, xtag(x)]}
-  rounds = 45 if tier == "quick" else 600
+  rounds = 35 if tier == "quick" else 600
   for i in range(rounds):
     for kind in KINDS:
       depth = rng.choice([0, 0, 1, 1, 2])
@@ -518,7 +554,7 @@ def gen_sys(tier, rng):
       cc = fr(rng.choice(COEFS + [Fraction(0)]))
       zero = rand_zero(rng)
       for x in rand_inputs(rng, 0.3):
-        yield {"kind": kind, "a": a, "b": b, "c": cc, "n": n, "x": x, "zero": zero,
+        yield {"kind": kind, "a": a, "b": b, "c": cc, "n": n, "x": x, "zero": zero, "inkind": rand_kind(rng),
                "tags": ["random", kind, xtag(x)]}
 
 
@@ -567,7 +603,7 @@ WEAK = ("add_assoc", "distrib", "div_def", "pow_neg")
 
 
 def gen_eq(tier, rng):
-  pools = 3 if tier == "quick" else 30
+  pools = 2 if tier == "quick" else 30
   for i in range(pools):
     pool = eq_pool(rng)
     for a, b in itertools.product(pool, repeat=2):
@@ -576,7 +612,7 @@ def gen_eq(tier, rng):
   for i in range(rounds):
     for name, lhs, rhs in same_filter_pairs(rng):
       yield {"a": lhs, "b": rhs, "must": name not in WEAK, "tags": ["law", name]}
-  n = 150 if tier == "quick" else 1500
+  n = 100 if tier == "quick" else 1500
   for i in range(n):
     a = bounded_expr(rng, rng.choice([0, 1, 2]), rng.random() < 0.5)
     b = bounded_expr(rng, rng.choice([0, 1, 2]), rng.random() < 0.5) if rng.random() < 0.7 else a
@@ -612,8 +648,9 @@ def gen_flist(tier, rng):
       es = [["lists", rand_list(rng, rng.randrange(1, 4), COEFS), den] for _ in range(k)]
     zero = rng.choice(["int", "q", "default"])
     for x in rand_inputs(rng, 0.3):
-      yield {"par": par, "es": es, "x": x, "zero": zero, "star": rng.random() < 0.7,
-             "tags": ["random", "par" if par else "casc", "k=%d" % k, xtag(x)]}
+      kd = rand_kind(rng)
+      yield {"par": par, "es": es, "x": x, "zero": zero, "star": rng.random() < 0.7, "kind": kd,
+             "tags": ["random", "par" if par else "casc", "k=%d" % k, xtag(x), "in=" + kd]}
 
 
 def nontrivial_flist(c, o):
@@ -672,6 +709,244 @@ def nontrivial_lin(c, o):
   return o.get("filt", ["raise"])[0] == "ok" and any(k[1] != 1 for k, _ in o.get("tn", []) + o.get("td", []))
 
 
+# ----------------------------------------------------------------------------- histories on live objects
+def inline(e, defs):
+  """Replaces ["ref", i] by the expression that defines object i"""
+  if e[0] == "ref":
+    return defs[e[1]]
+  return [inline(a, defs) if isinstance(a, list) and a and isinstance(a[0], str) else a for a in e]
+
+
+def build_env(e, env):
+  """build() on the SAME Python objects: ["ref", i] is env[i] itself"""
+  import audiolazy
+  t = e[0]
+  if t == "ref": return env[e[1]]
+  if t in ("dict", "lists", "num", "z"): return build(e)
+  if t == "neg": return -build_env(e[1], env)
+  if t == "pos": return +build_env(e[1], env)
+  if t in BIN or t == "call":
+    a = build_env(e[1], env); b = build_env(e[2], env)
+    return {"add": lambda: a + b, "sub": lambda: a - b, "mul": lambda: a * b, "div": lambda: a / b, "call": lambda: a(b)}[t]()
+  if t in SCAL:
+    a = build_env(e[1], env); c = Q(e[2])
+    return {"adds": lambda: a + c, "subs": lambda: a - c, "muls": lambda: a * c, "divs": lambda: a / c}[t]()
+  if t in RSCAL:
+    c = Q(e[1]); a = build_env(e[2], env)
+    return {"sadd": lambda: c + a, "ssub": lambda: c - a, "smul": lambda: c * a, "sdiv": lambda: c / a}[t]()
+  if t == "pow": return build_env(e[1], env) ** e[2]
+  raise ValueError(t)
+
+
+def obs_filter(f, e, xs, kind):
+  """A tcase entry: the object's stored polynomials and its output now"""
+  return {"e": e, "x": xs, "filt": safe(lambda: filt_of(f)),
+          "out": safe(lambda: out_fracs(xs, apply_filter(f, mkx(xs), "int", kind)))}
+
+
+def obs_same(f, e):
+  """A qcase entry: the live object against the same filter built afresh (must be ==)"""
+  o = run_eq({"a": e, "b": e})
+  g = build(e)
+  o["fa"] = safe(lambda: filt_of(f))
+  o["eq"] = bool(f == g); o["ne"] = bool(f != g); o["heq"] = bool(hash(f) == hash(g))
+  o["ha"] = [int(k) for k in tuple(f.numdict) + tuple(f.dendict)]
+  o["e"] = e
+  return o
+
+
+def build_struct(st):
+  import audiolazy
+  if st[0] == "F":
+    return build(st[1])
+  cls = audiolazy.CascadeFilter if st[0] == "C" else audiolazy.ParallelFilter
+  return cls(*[build_struct(m) for m in st[1]])
+
+
+def polys_modelled(st):
+  if st[0] == "F": return True
+  if st[0] == "C": return all(polys_modelled(m) for m in st[1])
+  return all(m[0] == "F" for m in st[1])
+
+
+def obs_struct(obj, st, xs, kind, polys):
+  import copy
+  o = {"s": copy.deepcopy(st), "x": xs,
+       "out": safe(lambda: out_fracs(xs, list(obj(as_kind(mkx(xs), kind), zero=0))))}
+  if polys and polys_modelled(st):
+    o["num"] = safe(lambda: terms_of(obj.numpoly)); o["den"] = safe(lambda: terms_of(obj.denpoly))
+  return o
+
+
+def at_path(x, path):
+  for i in path:
+    x = x[i] if not isinstance(x, list) or not x or not isinstance(x[0], str) else x[1][i]
+  return x
+
+
+def run_hist(c):
+  ts, qs, os_ = [], [], []
+  xs = c["x"]
+  if c["hk"] == "operands":
+    defs = list(c["objs"]); env = [build(e) for e in defs]
+    for i, e in enumerate(defs):
+      ts.append(obs_filter(env[i], e, xs, "list"))
+    def refs(e):
+      return [e[1]] if e[0] == "ref" else [j for a in e if isinstance(a, list) and a and isinstance(a[0], str) for j in refs(a)]
+    for step, kind in zip(c["ops"], c["kinds"]):
+      e = inline(step, defs)
+      defs.append(e)
+      if any(env[j] is None for j in refs(step)):      # built on a result that does not exist
+        env.append(None)
+        continue
+      r = safe(lambda: build_env(step, env))
+      if r[0] == "ok":
+        env.append(r[1])
+        ts.append(obs_filter(r[1], e, xs, kind))
+      else:
+        env.append(None)
+        ts.append({"e": e, "x": xs, "filt": r, "out": r})
+      for i in range(len(c["objs"])):                 # the operands, after they were used
+        ts.append(obs_filter(env[i], defs[i], xs, kind)); qs.append(obs_same(env[i], defs[i]))
+  else:                                                # a filter list edited in place / read through input kinds
+    import copy
+    st = copy.deepcopy(c["s"]); obj = build_struct(st)
+    for step in c["steps"]:
+      op = step[0]
+      if op == "obs":
+        os_.append(obs_struct(obj, st, xs, step[1], step[2]))
+        continue
+      tgt, sh = at_path(obj, step[1]), at_path(st, step[1])[1]
+      if op == "set": tgt[step[2]] = build_struct(step[3]); sh[step[2]] = copy.deepcopy(step[3])
+      elif op == "append": tgt.append(build_struct(step[2])); sh.append(copy.deepcopy(step[2]))
+      elif op == "insert": tgt.insert(step[2], build_struct(step[3])); sh.insert(step[2], copy.deepcopy(step[3]))
+      elif op == "pop": tgt.pop(); sh.pop()
+      elif op == "del": del tgt[step[2]]; del sh[step[2]]
+      else: raise ValueError(op)
+  return {"ts": ts, "qs": qs, "os": os_}
+
+
+def struct_lit(st):
+  if st[0] == "F": return "(XF %s)" % expr_lit(st[1])
+  return "(%s %s)" % ("XCasc" if st[0] == "C" else "XPar", L.lst([struct_lit(m) for m in st[1]]))
+
+
+def lit_hist(c, o):
+  if "ts" not in o:     # the harness itself failed on this history: never vacuous
+    return '(HC [TC FZ [] (Raise "harness") (Raise "harness")] [] [])'
+  opt = lambda r: "None" if r is None else "(Some %s)" % res_lit(r, pairs_lit)
+  ts = [lit_tree(t, t) for t in o["ts"]]
+  qs = [lit_eq({"a": q_["e"], "b": q_["e"], "must": True}, q_) for q_ in o["qs"]]
+  os_ = ["(OC %s %s %s %s %s)" % (struct_lit(x["s"]), qlist_lit(x_fracs(x["x"])), res_lit(x["out"], qlist_lit),
+                                  opt(x.get("num")), opt(x.get("den"))) for x in o["os"]]
+  return "(HC %s %s %s)" % (L.lst(ts), L.lst(qs), L.lst(os_))
+
+
+def delay_leaf(rng):
+  """A causal filter whose numerator starts with a pure delay and has >= 2 terms somewhere"""
+  b = [fr(0)] * rng.randrange(1, 3) + rand_list(rng, rng.randrange(1, 3), COEFS, zero_p=0, first_nz=True)
+  a = rand_list(rng, rng.randrange(1, 4), COEFS, first_nz=True)
+  return ["lists", b, a]
+
+
+def hist_inputs(rng):
+  r = rng.random()
+  if r < 0.3: return ["range", rng.randrange(3, 8)]
+  if r < 0.5: return ["sym", 3, rng.randrange(3)]
+  return ["q", [fr(rng.choice(XVALS)) for _ in range(rng.randrange(3, 8))]]
+
+
+def rand_struct(rng, depth, top=None):
+  if depth == 0 or (top is None and rng.random() < 0.55):
+    return ["F", delay_leaf(rng) if rng.random() < 0.25 else rand_leaf(rng, True, COEFS, 2)]
+  kind = top or rng.choice(["C", "P"])
+  return [kind, [rand_struct(rng, depth - 1) for _ in range(rng.randrange(0 if depth < 2 else 1, 4))]]
+
+
+def list_paths(st, path=()):
+  """paths of every filter list inside st"""
+  if st[0] == "F": return []
+  res = [list(path)]
+  for i, m in enumerate(st[1]):
+    res += list_paths(m, path + (i,))
+  return res
+
+
+def gen_hist(tier, rng):
+  import copy
+  R0, R1, R2 = ["ref", 0], ["ref", 1], ["ref", 2]
+  acc = ["lists", [fr(0), ONE], [ONE, [-1, 1]]]           # z^-1 / (1 - z^-1)
+  fixed = [([acc, F1], [["pow", R0, -1], ["pow", R0, -2], ["mul", ["pow", R0, -2], ["pow", R0, 2]], ["div", R1, R0]]),
+           ([["lists", [fr(0), fr(0), ONE, [1, 2]], [[2, 1]]], F2], [["div", ["num", [ONE]], R0], ["add", R0, R1], ["pow", R0, -3]]),
+           ([F1, F2], [["add", R0, R1], ["sub", R0, R0], ["call", R0, R1], ["pow", R1, -1], ["div", R0, R1]])]
+  for objs, ops in fixed:
+    for x in (X4, ["sym", 3, 1], ["range", 5]):
+      yield {"hk": "operands", "objs": objs, "ops": ops, "kinds": ["list", "stream", "iter", "tuple", "gen"][:len(ops)], "x": x,
+             "tags": ["edge", "operands"]}
+  n = 50 if tier == "quick" else 600
+  for i in range(n):
+    objs = [delay_leaf(rng) if rng.random() < 0.5 else rand_leaf(rng, True, COEFS), rand_leaf(rng, True, COEFS),
+            rand_leaf(rng, True, SIMPLE, 2)]
+    refs = [R0, R0, R1, R2]
+    ops = []
+    for _ in range(rng.randrange(2, 5)):
+      a, b = rng.choice(refs + [["ref", j + 3] for j in range(len(ops))]), rng.choice(refs)
+      k = rng.choice(["pow-", "pow-", "pow+", "div", "rdiv", "add", "sub", "mul", "neg", "smul", "call", "divs"])
+      ops.append({"pow-": ["pow", a, -rng.randrange(1, 4)], "pow+": ["pow", a, rng.randrange(0, 3)], "div": ["div", b, a],
+                  "rdiv": ["sdiv", fr(rng.choice(COEFS)), a], "add": ["add", a, b], "sub": ["sub", a, b], "mul": ["mul", a, b],
+                  "neg": ["neg", a], "smul": ["smul", fr(rng.choice(COEFS)), a], "call": ["call", b, ["pow", ["z"], -1]] if rng.random() < 0.5 else ["call", R2, a],
+                  "divs": ["divs", a, fr(rng.choice(COEFS))]}[k])
+    defs = list(objs)
+    ok = True
+    for o_ in ops:                                          # results may be reused: keep the history cheap
+      defs.append(inline(o_, defs)); ok = ok and deg_est(defs[-1]) <= DEG_LIMIT
+    if not ok:
+      continue
+    yield {"hk": "operands", "objs": objs, "ops": ops, "kinds": [rand_kind(rng) for _ in ops], "x": hist_inputs(rng),
+           "tags": ["random", "operands"] + ["op=" + o_[0] for o_ in ops]}
+  # filter lists: every input kind, then in-place edits between reads of numpoly / denpoly / output
+  bank = ["P", [["F", ["lists", [ONE, [-2, 1]], [ONE]]], ["F", ["lists", [fr(0), fr(0), [3, 1]], [ONE, [-1, 1]]]]]]
+  sweeps = [bank, ["C", [["F", ["pow", ["z"], -1]], bank]], ["C", [["F", F1], ["F", F2]]], ["F", F1],
+            ["P", [["C", [["F", F1], bank]], ["F", F2]]], ["C", [bank, bank]]]
+  for st in sweeps:
+    for x in (["range", 6], ["q", [fr(v) for v in (3, -1, 4, 1, -5, 9)]], ["sym", 3, 0]):
+      yield {"hk": "lists", "s": st, "x": x, "steps": [["obs", k, True] for k in IN_KINDS], "tags": ["edge", "kinds", st[0]]}
+  m = 70 if tier == "quick" else 900
+  for i in range(m):
+    st = rand_struct(rng, 2, rng.choice(["C", "C", "P"]))
+    sh = copy.deepcopy(st)
+    steps = [["obs", rand_kind(rng), True]]
+    for _ in range(rng.randrange(2, 6)):
+      paths = list_paths(sh)
+      path = rng.choice(paths)
+      members = at_path(sh, path)[1]
+      new = rand_struct(rng, 1 if len(path) < 1 else 0)
+      op = rng.choice(["set", "set", "append", "pop", "insert", "del", "poppush"])
+      if op in ("set", "pop", "del", "poppush") and not members:
+        op = "append"
+      if op == "set":
+        j = rng.randrange(len(members)); steps.append(["set", path, j, copy.deepcopy(new)]); members[j] = new
+      elif op == "append":
+        steps.append(["append", path, copy.deepcopy(new)]); members.append(new)
+      elif op == "insert":
+        j = rng.randrange(len(members) + 1); steps.append(["insert", path, j, copy.deepcopy(new)]); members.insert(j, new)
+      elif op == "pop":
+        steps.append(["pop", path]); members.pop()
+      elif op == "del":
+        j = rng.randrange(len(members)); steps.append(["del", path, j]); del members[j]
+      else:                                                 # same length again at the next read
+        steps.append(["pop", path]); members.pop(); steps.append(["append", path, copy.deepcopy(new)]); members.append(new)
+      if rng.random() < 0.8:
+        steps.append(["obs", rand_kind(rng), rng.random() < 0.8])
+    steps.append(["obs", rand_kind(rng), True])
+    yield {"hk": "lists", "s": st, "x": hist_inputs(rng), "steps": steps,
+           "tags": ["random", "lists", st[0]] + sorted(set("edit=" + t[0] for t in steps if t[0] != "obs"))}
+
+
+def nontrivial_hist(c, o):
+  return "ts" in o and len(o["ts"]) + len(o["os"]) >= 3
+
+
 def known(c, o):
   return None
 
@@ -683,4 +958,5 @@ FAMILIES = {
   "eq": Family("eq", IMPORTS, "qcase", "corr_eq", "holds_eq", gen_eq, run_eq, lit_eq, nontrivial_eq, known),
   "flist": Family("flist", IMPORTS, "lcase", "corr_flist", "holds_flist", gen_flist, run_flist, lit_flist, nontrivial_flist, known),
   "lin": Family("lin", IMPORTS, "ncase", "corr_lin", "holds_lin", gen_lin, run_lin, lit_lin, nontrivial_lin, known),
+  "hist": Family("hist", IMPORTS, "hcase", "corr_hist", "holds_hist", gen_hist, run_hist, lit_hist, nontrivial_hist, known, timeout=30),
 }
